@@ -9,8 +9,29 @@ from pyvc.api import classdef, contract
 classdef("aw_core.models.Event",
          fields={"id": "Optional[int]", "timestamp": "datetime", "duration": "timedelta",
                  "data": "Dict[str,JV]"},
-         invariant=["self.timestamp.microsecond % 1000 == 0", "self.timestamp >= EPOCH"])
+         invariant=["ms_aligned(self.timestamp)", "self.timestamp >= EPOCH"])
 from pyvc.api import CLASSDEFS
 CLASSDEFS["aw_core.models.Event"]["record"] = True
 
 classdef("timeslot.timeslot.Timeslot", fields={"start": "datetime", "end": "datetime"})
+
+from pyvc.api import spec
+from datetime import timedelta
+
+
+@spec
+def floor_ms(t):
+    """The instant t floored to the millisecond."""
+    return floor_to_ms(t)
+
+
+# The timestamp setter stores the given instant floored to the millisecond (UTC).  Proved from the source
+# of aw_core/models.py by C13; used modularly by every other property.
+contract(
+    "aw_core.models.Event.timestamp.setter",
+    params={"self": "Event", "timestamp": "datetime"},
+    requires=[],
+    ensures=["self.timestamp == floor_ms(timestamp)"],
+    modifies=["self.timestamp"],
+    raises=[],
+)
